@@ -57,13 +57,15 @@ def req_str(r):
     return ":".join(str(x) for x in r)
 
 
-def concrete(r):
+def concrete(r, hold=False):
+    """hold: the harness collects while it holds the request's value, before manifesting it (one more
+    point at which Machine's Collect action may fire; it must be as invisible as anywhere else)."""
     if r[0] in ("eval", "again"):
-        return {"op": r[0], "src": r[1], "manifest": "multi"}
+        return {"op": r[0], "src": r[1], "manifest": "multi", "hold_gc": hold}
     if r[0] == "call":
-        return {"op": "call", "src": r[1], "args": CALL_ARGS[r[1]], "manifest": "multi"}
+        return {"op": "call", "src": r[1], "args": CALL_ARGS[r[1]], "manifest": "multi", "hold_gc": hold}
     if r[0] == "callsrc":
-        return {"op": "call", "src": r[1], "args_src": CALLSRC_ARGS[r[1]], "manifest": "multi"}
+        return {"op": "call", "src": r[1], "args_src": CALLSRC_ARGS[r[1]], "manifest": "multi", "hold_gc": hold}
     if r[0] == "gc":
         return {"op": "gc"}
     if r[0] == "limit":
@@ -138,7 +140,7 @@ def run(tier, seed):
         else:
             base[(rs, lim)] = digest(r["outs"][1])
 
-    cases = [hist_case([concrete(q) for q in h["hist"]]) for h in hists]
+    cases = [hist_case([concrete(q, hold=(hi + qi) % 3 == 0) for qi, q in enumerate(h["hist"])]) for hi, h in enumerate(hists)]
     results = run_cases(cases, "c11_hist", timeout_ms=60000)
 
     lines = [{"ev": "fresh", "req": rs, "limit": lim, "out": base[(rs, lim)],
